@@ -315,7 +315,13 @@ class Ctx:
             args += ["--jobs", str(jobs)]
         p = self.run_harness(args, timeout=timeout)
         fatal = []
-        if p.returncode != 0 or not os.path.exists(out):
+        stopped_itself = False
+        if p.returncode != 0 and os.path.exists(out):
+            try:   # a process that reported hangs writes its results and then ends without exit handlers
+                stopped_itself = json.load(open(out)).get("aborted_at", -1) >= 0
+            except ValueError:
+                stopped_itself = False
+        if (p.returncode != 0 and not stopped_itself) or not os.path.exists(out):
             # The process died.  A Go fatal error (stack overflow, concurrent map access, out of
             # memory) cannot be recovered inside the harness; if its stack shows the library, find
             # the case that kills a fresh process on its own: that is behaviour of the real code.
@@ -350,6 +356,9 @@ class Ctx:
                 self.handle_violations(res.get("violations", []), context=cases)
             return res
         res = json.load(open(out))
+        if res.get("aborted_at", -1) >= 0:
+            self.notes.append("replay of %s stopped after repeated hangs (reported as violations); %d of %d cases evaluated" %
+                              (name, res.get("evaluations", 0), len(cases)))
         self.evaluations += res.get("evaluations", 0)
         self.nontrivial += res.get("nontrivial", 0)
         self.traces += res.get("evaluations", 0)
@@ -542,12 +551,17 @@ class Ctx:
             return self._dies([case], 600, "confirm") is not None
         path = self.write_cases("confirm-%s.ndjson" % hashlib.sha1(v["key"].encode()).hexdigest()[:10], [case])
         out = path + ".result.json"
+        if os.path.exists(out):
+            os.remove(out)
         p = self.run_harness(["replay", "--in", path, "--out", out], timeout=300)
-        if p.returncode != 0 or not os.path.exists(out):
-            # a crash of the harness on a single case is itself reproduced behaviour only
-            # if the case was reported as a crash; otherwise infrastructure.
+        if not os.path.exists(out):
             return False
         res = json.load(open(out))
+        if p.returncode != 0 and res.get("aborted_at", -1) < 0:
+            # a crash of the harness on a single case is itself reproduced behaviour only
+            # if the case was reported as a crash; otherwise infrastructure.  (A process that
+            # stopped itself after reporting a hang has written its results first.)
+            return False
         want = v.get("orig_key", v["key"])
         return any(x["key"] == want for x in res.get("violations", []))
 
